@@ -591,6 +591,10 @@ func probeClient(r *Rand, idx int, nPk int, state string) ClientSpec {
 }
 
 func genC17(r *Rand, p *Plan, tier string) {
+	if r.Chance(25) {
+		genC17ref(r, p, tier)
+		return
+	}
 	p.Family = "shutdown"
 	p.Scen.Server = "probe"
 	p.Scen.Stall = r.Chance(70)
